@@ -1122,3 +1122,41 @@ def check_C01(ctx):
                        "or not, per-datagram latency uniform below 1 s): announcing searches and searches by every other node in random order, "
                        "separated by gaps from 1 s to 2 h, and runs crossing 23 h 59 m / 24 h 01 m / 25 h; a case = one search",
                        {"ApiSearch": 40})
+
+
+
+# ============================================================================================ --replay
+
+def replay(ctx, path):
+    """bin/check <ID> quick --replay <file>: re-validate a recorded trace (the replay file of a violation) against the trace
+    specification with StrictProps = {ID}; a `.hex` datagram is fed to the decode worker of the CURRENT tree."""
+    import subprocess
+    base = os.path.basename(path)
+    ctx.cov["samples"] = vlib.head_lines(path, 2, 300)
+    ctx.cov["evaluations"] = 1
+    ctx.cov["distinct_nontrivial"] = 2
+    ctx.cov["rule"] = "replay of %s" % base
+    if base.endswith(".hex"):
+        vlib.build_harness()
+        data = open(path).read()
+        p = subprocess.run([vlib.VH, "decode"], input=data, capture_output=True, text=True, timeout=600, preexec_fn=vlib.child_limits)
+        outs = [json.loads(x) for x in p.stdout.splitlines() if x.startswith("{")]
+        bad = p.returncode != 0 or any(r.get("panic") or r.get("big", 0) > 65536 or r.get("peak", 0) > 1048576 for r in outs)
+        if bad:
+            ctx.violation("the datagram still kills / overloads the decoder (exit %s)" % p.returncode, path)
+        return
+    table = [("token-store", "trace/TokenTrace.tla"), ("peer-store", "trace/PeerTrace.tla"), ("routing-table", "trace/TableTrace.tla"),
+             ("txn-ids", "trace/TxnTrace.tla"), ("bep42", "trace/Bep42Trace.tla"), ("wire-", "trace/WireTrace.tla")]
+    tla = "trace/NodeTrace.tla"
+    for key, t in table:
+        if key in base:
+            tla = t
+    tmp = ctx.path("replay.ndjson")
+    with open(tmp, "w") as f:
+        f.write(open(path).read())
+    cfg = ctx.cfg("replay.cfg", NODE_TV_CFG % ('"%s"' % ctx.pid))
+    tv = vlib.validate_trace(tla, cfg, tmp, timeout=3000, heap="8g")
+    ctx.add_tv("replay", tv, 1, 1)
+    if not tv.accepted:
+        why = "; ".join(tv.chkfails[:3]) or "rejected at line %s" % tv.rejected_at
+        ctx.violation("replayed trace is rejected: %s" % why, path)
